@@ -10,17 +10,43 @@ import (
 	"github.com/Trisia/randomness"
 )
 
+// readState is shared by the workers of one detection run and remembers the first read error.
+type readState struct {
+	mu  sync.Mutex
+	err error
+}
+
+// fail records the first read error of the run.
+func (r *readState) fail(err error) {
+	r.mu.Lock()
+	if r.err == nil {
+		r.err = err
+	}
+	r.mu.Unlock()
+}
+
+// failure returns the first read error of the run, nil if every sample was read.
+func (r *readState) failure() error {
+	r.mu.Lock()
+	defer r.mu.Unlock()
+	return r.err
+}
+
 // 工作器
 // jobs: 启动参数
 // source: 随机源
 // n: 读取字节数
 // round: 检测方式
 // counter: 结果集统计
-func worker(jobs chan int, source io.Reader, n int, round func([]byte) []*randomness.TestResult, counter []int32, distributions [][]float64, wait *sync.WaitGroup) {
+func worker(jobs chan int, source io.Reader, state *readState, n int, round func([]byte) []*randomness.TestResult, counter []int32, distributions [][]float64, wait *sync.WaitGroup) {
 	buf := make([]byte, n, n*2)
 	for i := range jobs {
 		_, err := source.Read(buf)
 		if err != nil {
+			// the sample is lost: report the failure to the caller, but still signal completion,
+			// otherwise the caller waits forever
+			state.fail(err)
+			wait.Done()
 			continue
 		}
 		resArr := round(buf)
@@ -36,13 +62,14 @@ func worker(jobs chan int, source io.Reader, n int, round func([]byte) []*random
 
 // 根据处理器情况启动worker
 // return 控制命令管道, 结束型号器
-func bootWorker(source io.Reader, n int, round func([]byte) []*randomness.TestResult, counter []int32, distributions [][]float64) (chan int, *sync.WaitGroup) {
+func bootWorker(source io.Reader, n int, round func([]byte) []*randomness.TestResult, counter []int32, distributions [][]float64) (chan int, *sync.WaitGroup, *readState) {
 	var wait sync.WaitGroup
+	var state readState
 	jobs := make(chan int)
 	for i := 0; i < runtime.NumCPU(); i++ {
-		go worker(jobs, source, n, round, counter, distributions, &wait)
+		go worker(jobs, source, &state, n, round, counter, distributions, &wait)
 	}
-	return jobs, &wait
+	return jobs, &wait, &state
 }
 
 // FactoryDetectFast 出厂检测，15种检测，每组 10^6比特，分50组
@@ -53,13 +80,16 @@ func FactoryDetectFast(source io.Reader) (bool, error) {
 	n := 1000000 / 8
 	counters := make([]int32, 15)
 	distributions := createDistributions(s, 15)
-	jobs, wg := bootWorker(source, n, Round15, counters, distributions)
+	jobs, wg, state := bootWorker(source, n, Round15, counters, distributions)
 	wg.Add(s)
 	defer close(jobs)
 	for i := 0; i < s; i++ {
 		jobs <- i
 	}
 	wg.Wait()
+	if err := state.failure(); err != nil {
+		return false, err
+	}
 	fmt.Println(counters)
 	for i, itemCnt := range counters {
 		if int(itemCnt) < t {
@@ -83,13 +113,16 @@ func PowerOnDetectFast(source io.Reader) (bool, error) {
 	n := 1000000 / 8
 	counters := make([]int32, 15)
 	distributions := createDistributions(s, 15)
-	jobs, wg := bootWorker(source, n, Round15, counters, distributions)
+	jobs, wg, state := bootWorker(source, n, Round15, counters, distributions)
 	wg.Add(s)
 	defer close(jobs)
 	for i := 0; i < s; i++ {
 		jobs <- i
 	}
 	wg.Wait()
+	if err := state.failure(); err != nil {
+		return false, err
+	}
 	fmt.Println(counters)
 
 	for i, itemCnt := range counters {
@@ -115,13 +148,16 @@ func PeriodDetectFast(source io.Reader) (bool, error) {
 	n := 20000 / 8
 	counters := make([]int32, 12)
 	distributions := createDistributions(s, 12)
-	jobs, wg := bootWorker(source, n, Round12, counters, distributions)
+	jobs, wg, state := bootWorker(source, n, Round12, counters, distributions)
 	wg.Add(s)
 	defer close(jobs)
 	for i := 0; i < s; i++ {
 		jobs <- i
 	}
 	wg.Wait()
+	if err := state.failure(); err != nil {
+		return false, err
+	}
 	fmt.Println(counters)
 	for i, itemCnt := range counters {
 		if int(itemCnt) < t {
